@@ -80,6 +80,13 @@ def work(tier, seed):
         for cp in (False, True):
             cfg = seq.cfg_with(seed=seed, groups=[{"params": [0, 1], "over": {}}, {"params": [2], "over": {"lr": 0.125}}], **L0, **opt_cfgs(seed)[1])
             units.append({"kind": "canon", "cfg": cfg, "W": W, "g": g, "comm": "FP32", "cp": cp, "hists": h2[:: (3 if tier == "quick" else 1)]})
+    # mixed-precision parameter group (first parameter bfloat16, the others float32) with DEFAULT / FP32 communication:
+    # the float32 parameters must not be rounded by the communication
+    for (W, g) in [(2, 2), (2, 1), (4, 2)]:
+        for comm, cp in itertools.product(["DEFAULT", "FP32"], [False, True]):
+            for pdt in (["bf16", "f32", "f32"], ["f32", "bf16", "f32"]):
+                cfg = seq.cfg_with(seed=seed, pdtypes=pdt, **L0, **opt_cfgs(seed)[1])
+                units.append({"kind": "canon", "cfg": cfg, "W": W, "g": g, "comm": comm, "cp": cp, "hists": h2[:: (5 if tier == "quick" else 1)]})
     # schedule exploration on core histories
     core = [
         [["step", [1, 1, 1]], ["step", [1, 1, 1]]],
@@ -114,7 +121,17 @@ def check_exec(s, ser, cfg, W, what):
         for r in range(1, W):
             msgs += distrun.compare_steps(s.results[r]["steps"], base, f"{what}: rank {r} vs rank 0 (replicas must be bit-identical)")
         u = common.UNIT[cfg["pdtype"]]
-        msgs += distrun.compare_steps(base, ser, f"{what}: rank 0 vs serial optimizer (only the communicated quantity rounded)", ulps=8, u=u)
+        if cfg.get("pdtypes"):
+            # mixed precision: bitwise for the float32 parameters is required through the twin; few-ulp of the coarsest dtype otherwise
+            u = max(common.UNIT[d] for d in cfg["pdtypes"])
+            for t, (pa, pb) in enumerate(zip(base, ser)):
+                for i, (x, y) in enumerate(zip(pa, pb)):
+                    ui = common.UNIT[cfg["pdtypes"][i]]
+                    if not x.equal(y) and (x.double() - y.double()).abs().max().item() > 8 * ui * max(y.double().abs().max().item(), 1e-30):
+                        msgs.append(f"{what}: rank 0 vs serial optimizer: parameter {i} ({cfg['pdtypes'][i]}) differs after step {t} by {(x.double() - y.double()).abs().max().item():.3e} (more than the rounding of the communicated quantity)")
+                        break
+        else:
+            msgs += distrun.compare_steps(base, ser, f"{what}: rank 0 vs serial optimizer (only the communicated quantity rounded)", ulps=8, u=u)
         key = common.h64([common.digest_obj(x) for x in base])
     else:
         key = common.h64("fail", str(s.deadlock), [bool(e) for e in s.errors])
